@@ -41,6 +41,7 @@ type HarnessSpec struct {
 	MaxPaths int               `json:"maxpaths"`
 	TimeoutMs int              `json:"timeout_ms"`
 	Replay   string            `json:"replay"` // "native" (default) or "trace"
+	Solver   string            `json:"solver"`
 	What     string            `json:"what"`
 	Bounds   map[string]string `json:"bounds"`
 	MayBeUnknown int           `json:"-"`
@@ -210,6 +211,7 @@ func checkMain(args []string) int {
 				cfg.QueryTimeoutMs = 20000
 			}
 		}
+		cfg.Solver = h.Solver
 		cfg.DropGo = h.DropGo
 		cfg.NoOps = h.NoOps
 		cfg.Stubs = map[string]string{}
